@@ -222,8 +222,9 @@ class MVL(MoveInstruction):
         assert isinstance(src, Pointer), f"Expected Pointer, got {type(src)}"
         # 0xCB and 0xCF variants use IMem8, IMem8
         dst_reg = TempReg(TempMvlDst)
-        dst_mode = get_addressing_mode(self._pre, 1)
-        src_mode = get_addressing_mode(self._pre, 2)
+        # Same PRE resolution as render(): a lone internal-memory operand
+        # follows PRE1 even when it is the second operand.
+        dst_mode, src_mode = self._addressing_modes()
 
         dst_reg.lift_assign(
             il, dst.lift_current_addr(il, pre=dst_mode, side_effects=False)
